@@ -5541,6 +5541,11 @@ class DfaCompileCtx:
             if not to_replace.is_fallthrough:
                 continue
 
+            # A step that leads back to its own state leaves nothing to bypass (retargeted, the transition would point where it points already,
+            # and this pass would report progress for ever): the cycle is the business of _verify_fallthrough_loop.
+            if to_replace.target is transition.target:
+                continue
+
             # An action that returns early (a yield) makes the generated code advance the input before the actions of the transition run.
             # Merged with an action that may leave without consuming (an append that overflows, a break under an if) that would skip a byte.
             combined_actions = [*transition.actions, *to_replace.actions]
